@@ -40,6 +40,9 @@ Inductive case :=
 (** [WalletWrite::truncate_to_chain_state] with the chain state (tree sizes) of height [target] *)
 | CTcs (pre : w3) (blocks : list Z) (mn : mn3) (target : Z) (sizes : Z * Z * Z)
        (res : outcome unit perr) (post : w3) (roots_ok wit_ok : bool) (hazard clean_ok : bool)
+(** [WalletWrite::rewind_to_chain_state] to the chain state of height [target], no birthday reset *)
+| CRewind (pre : w3) (blocks : list Z) (mn : mn3) (target : Z)
+       (res : outcome unit perr) (post : w3) (roots_ok wit_ok : bool) (hazard clean_ok : bool)
 (** [WalletWrite::truncate_to_height req] *)
 | CTrunc (pre : w3) (blocks : list Z) (mn : mn3) (req : Z)
        (res : outcome Z perr) (post : w3) (roots_ok wit_ok : bool) (hazard clean_ok : bool).
@@ -63,6 +66,13 @@ Definition run_case (c : case) : bool :=
       match res with Ok _ => w3_eqb pre post | _ => false end
   | CTcs pre blocks mn target sizes res post _ _ _ _ =>
       match truncate_to_chain_state PRUNING_DEPTH blocks mn target sizes pre, res with
+      | Ok w', Ok _ => w3_eqb w' post
+      | Err e, Err e' => perr_eqb e e' && w3_eqb pre post
+      | Panic, Panic => true
+      | _, _ => false
+      end
+  | CRewind pre blocks mn target res post _ _ _ _ =>
+      match rewind_to_chain_state PRUNING_DEPTH blocks mn target pre, res with
       | Ok w', Ok _ => w3_eqb w' post
       | Err e, Err e' => perr_eqb e e' && w3_eqb pre post
       | Panic, Panic => true
@@ -184,6 +194,24 @@ Definition prop_case (c : case) : bool :=
       | Err _ => w3_eqb pre post
       | Panic => false
       end
+  | CRewind pre blocks mn target res post roots_ok wit_ok _ _ =>
+      roots_ok && wit_ok && w3_all ps_wf post &&
+      match res with
+      | Ok _ =>
+          let '(a, b, c) := pre in let '(a', b', c') := post in
+          let sub s s' := lz_eqb (rt s) (rt s') && sub_ck (ck s') (ck s) in
+          sub a a' && sub b b' && sub c c' &&
+          (* a target inside the pruning window: afterwards no pool holds a checkpoint above it *)
+          match zmax_list blocks with
+          | Some maxs =>
+              if (target <? maxs) && (maxs - (PRUNING_DEPTH - 1) <=? target)
+              then w3_all (fun s => forallb (fun e => fst e <=? target) (ck s)) post
+              else true
+          | None => w3_eqb pre post
+          end
+      | Err _ => w3_eqb pre post
+      | Panic => false
+      end
   | CTrunc pre blocks mn req res post roots_ok wit_ok _ _ =>
       roots_ok && wit_ok && w3_all ps_wf post &&
       match res with
@@ -236,6 +264,28 @@ Definition known_class (c : case) : N :=
             | Err _ => w3_eqb pre post
             | Panic => false end
       then 2%N else 0%N
+  | CRewind pre blocks mn target (Ok _) post roots_ok wit_ok hazard clean_ok =>
+      let '(a, b, c) := pre in let '(a', b', c') := post in
+      let sub s s' := lz_eqb (rt s) (rt s') && sub_ck (ck s') (ck s) in
+      (* class 3 (C06-F4): the target has no checkpoint in any pool, the trees are cut to the next
+         checkpoint above it; everything else holds *)
+      if roots_ok && wit_ok && w3_all ps_wf post && sub a a' && sub b b' && sub c c'
+         && negb (has_at (ck a) target || has_at (ck b) target || has_at (ck c) target)
+         && negb (w3_all (fun s => forallb (fun e => fst e <=? target) (ck s)) post)
+      then 3%N
+      else if hazard && clean_ok && negb (roots_ok && wit_ok) && w3_all ps_wf post
+              && sub_ck (ck a') (ck a) && sub_ck (ck b') (ck b) && sub_ck (ck c') (ck c)
+              && (has_at (ck a) target || has_at (ck b) target || has_at (ck c) target
+                  || w3_all (fun s => forallb (fun e => fst e <=? target) (ck s)) post)
+      then 2%N else 0%N
+  | CRewind pre blocks mn target res post roots_ok wit_ok hazard clean_ok =>
+      if hazard && clean_ok && negb (roots_ok && wit_ok) && w3_all ps_wf post
+         && match res with
+            | Ok _ => let '(a, b, c) := pre in let '(a', b', c') := post in
+                      sub_ck (ck a') (ck a) && sub_ck (ck b') (ck b) && sub_ck (ck c') (ck c)
+            | Err _ => w3_eqb pre post
+            | Panic => false end
+      then 2%N else 0%N
   | CTrunc pre blocks mn req res post roots_ok wit_ok hazard clean_ok =>
       if hazard && clean_ok && negb (roots_ok && wit_ok) && w3_all ps_wf post
          && match res with
@@ -270,6 +320,12 @@ Definition tag_case (c : case) : N :=
        100 + failed res + 4 * b2n pruned + 8 * b2n ooo + 16 * b2n emptyf + 32 * b2n multi
        + 64 * b2n ret + 128 * b2n real
    | CRoots _ res _ _ _ _ _ => 600 + failed res
+   | CRewind pre blocks mn target res post _ _ _ _ =>
+       800 + failed res
+       + 4 * b2n (match zmax_list blocks with Some l => Z.ltb target l | None => false end)
+       + 8 * b2n (match zmax_list blocks with Some l => Z.ltb target (l - (PRUNING_DEPTH - 1))%Z | None => false end)
+       + 16 * b2n (w3_any (fun s => has_at (ck s) target) pre)
+       + 32 * b2n (negb (w3_eqb pre post))
    | CTcs pre blocks mn target _ res _ _ _ _ _ =>
        700 + failed res
        + 4 * b2n (match zmax_list blocks with Some l => Z.ltb target l | None => false end)
